@@ -398,13 +398,16 @@ func checkC16(c *Ctx) {
 			}
 		}
 	}
+	// every file ends with a comment block that declares a class and an alias together, and a use of the alias: the
+	// neighbours in one block must not disturb each other
+	const sameBlock = "---@class CC\n---@field fc number\n---@alias AliasK number\n\n---@type AliasK\nlocal ak = 1\nprint(ak)\n"
 	var sgroups [][]*proto.Case
 	for i, s := range scs {
-		body := "---@class CA\n---@field fa number\n\n---@class CB\n---@field fb number\n\n--" + s.text + "\nlocal subj = nil\n---@type CA\nlocal nb = {}\nlocal unusedloc = 1\nprint(subj, nb.fa)\n"
+		body := "---@class CA\n---@field fa number\n\n---@class CB\n---@field fb number\n\n--" + s.text + "\nlocal subj = nil\n---@type CA\nlocal nb = {}\nlocal unusedloc = 1\nprint(subj, nb.fa)\n" + sameBlock
 		defLine, defCol := 11, 15
 		if s.corrupt {
 			// a malformed line sits inside a comment block: the annotation lines after it in the same block still count
-			body = "---@class CA\n---@field fa number\n\n---@class CB\n---@field fb number\n\n--" + s.text + "\n---@class CZ\n---@field zf number\n---@type CZ\nlocal nb = {}\nlocal unusedloc = 1\nprint(nb.zf)\n"
+			body = "---@class CA\n---@field fa number\n\n---@class CB\n---@field fb number\n\n--" + s.text + "\n---@class CZ\n---@field zf number\n---@type CZ\nlocal nb = {}\nlocal unusedloc = 1\nprint(nb.zf)\n" + sameBlock
 			defLine, defCol = 12, 9
 		}
 		pc := &proto.Case{ID: i + 1, Files: map[string]string{"f.lua": body}, Init: json.RawMessage(allOnLocal)}
